@@ -82,3 +82,7 @@ Definition state_sound_from_definitions (ds : list FromDict.vdef) (r : DagModel.
 (** executable acceptance test, for lists of definitions regenerated from the running code *)
 Definition accepted_b (ds : list FromDict.vdef) : bool :=
   match FromDict.from_dict ds with FromDict.FOk _ => true | FromDict.FErr _ => false end.
+
+(** executable "this read succeeded" *)
+Definition is_ok {V} (o : out V) : bool := match o with Ok _ => true | _ => false end.
+
